@@ -164,6 +164,11 @@ Section Eval.
     | EJoin l sep => rbind (eval_list l) (fun ps => Ok (VStr (join (lit sep) ps)))
     | EIfNonEmpty c a b =>
         rbind (rbind (eval c) as_str) (fun s => match s with [] => eval b | _ => eval a end)
+    | EFixed a prec =>
+        rbind (eval a) (fun v => match v with VFloat x => Ok (VStr (fmt_fixed prec x)) | _ => Bad end)
+    | ETrimSuffix a suf =>
+        rbind (rbind (eval a) as_str) (fun s =>
+        rbind (rbind (eval suf) as_str) (fun t => Ok (VStr (trim_suffix t s))))
     | EOptInt => match e_opt en with Some n => Ok (VInt n) | None => Bad end
     | EOptTime utc layout =>
         match e_opt en with
@@ -368,6 +373,87 @@ Definition call (configured : str) (lim : limiter) (ep : endpoint) (resp : respo
       | Some t, _ => {| o_trace := tr; o_err := Some t; o_data := None; o_panic := false; o_bad := false |}
       | None, None => bad_outcome
       end
+  | Some _, Reject =>
+      {| o_trace := []; o_err := Some ""%string; o_data := None; o_panic := false; o_bad := false |}
+  | _, _ => bad_outcome
+  end.
+
+(* ---------- the same call in a world with redirects and cancellation ---------- *)
+
+(* hand model of http.Client.Do (net/http, not osmapi code): the default policy follows up to
+   10 requests in total, every hop of a GET is a GET of the Location; ErrUseLastResponse hands
+   the 3xx back; a context cancelled before the call sends nothing; one cancelled while the
+   request is in flight has sent it *)
+Inductive transport_result := TResp (r : response) | TErr.
+
+Definition client_do (w : world) (url : str) : list event * transport_result :=
+  let req u := EvRequest http_method u in
+  match w_ctx w with
+  | CtxCancelledBefore => ([], TErr)
+  | CtxCancelledDuring => ([req url], TErr)
+  | CtxLive =>
+      match w_hops w with
+      | [] => ([req url], TResp (w_resp w))
+      | _ :: _ =>
+          if w_follow w then
+            if (Z.of_nat (List.length (w_hops w)) <=? 9)
+            then (map req (url :: w_hops w), TResp (w_resp w))
+            else (map req (url :: firstn 9 (w_hops w)), TErr)
+          else ([req url], TResp {| r_status := w_hop_status w; r_body := BMalformed |})
+      end
+  end.
+
+Definition after_response (target : string) (resp : response) : errv * option decoded :=
+  match status_error (r_status resp) with
+  | Some t => (Some t, None)
+  | None => match decode target (r_body resp) with
+            | Some d => (None, Some d)
+            | None => (Some ""%string, None)
+            end
+  end.
+
+Definition get_from_api_w (w : world) (url : str) (target : string)
+  : list event * errv * option decoded :=
+  let '(reqs, tr) := client_do w url in
+  let after := match tr with
+               | TResp r => after_response target r
+               | TErr => (Some ""%string, None)
+               end in
+  (* Limiter.Wait(ctx) fails when the limiter refuses or the context is already done *)
+  let wait_ok := match w_lim w, w_ctx w with
+                 | LimiterFails, _ | _, CtxCancelledBefore => false
+                 | _, _ => true
+                 end in
+  match w_lim w, wait_before_do with
+  | NoLimiter, _ => (reqs, fst after, snd after)
+  | _, true =>
+      if wait_ok || negb wait_error_returns
+      then (EvWait :: reqs, fst after, snd after)
+      else ([EvWait], Some ""%string, None)
+  | _, false =>
+      if wait_ok || negb wait_error_returns
+      then (reqs ++ [EvWait], fst after, snd after)
+      else (reqs ++ [EvWait], Some ""%string, None)
+  end.
+
+(* what a method does with getFromAPI's outcome *)
+Definition finish (m : method) (tr : list event) (err : errv) (d : option decoded) : outcome :=
+  match err, d with
+  | None, Some d =>
+      match select (m_ret m) d with
+      | SData l => {| o_trace := tr; o_err := None; o_data := Some l; o_panic := false; o_bad := false |}
+      | SError => {| o_trace := tr; o_err := Some ""%string; o_data := None; o_panic := false; o_bad := false |}
+      | SPanic => {| o_trace := tr; o_err := None; o_data := None; o_panic := true; o_bad := false |}
+      | SBad => bad_outcome
+      end
+  | Some t, _ => {| o_trace := tr; o_err := Some t; o_data := None; o_panic := false; o_bad := false |}
+  | None, None => bad_outcome
+  end.
+
+Definition call_w (configured : str) (w : world) (ep : endpoint) : outcome :=
+  match find_method (method_name ep), url_of configured ep with
+  | Some m, Ok url =>
+      let '(tr, err, d) := get_from_api_w w url (m_target m) in finish m tr err d
   | Some _, Reject =>
       {| o_trace := []; o_err := Some ""%string; o_data := None; o_panic := false; o_bad := false |}
   | _, _ => bad_outcome
